@@ -579,6 +579,11 @@ PPL::Grid::relation_with(const Grid_Generator& g) const {
     return Poly_Gen_Relation::subsumes();
   }
 
+  if (!generators_are_up_to_date() && !update_generators()) {
+    // Updating found the grid empty.
+    return Poly_Gen_Relation::nothing();
+  }
+
   if (!congruences_are_up_to_date()) {
     update_congruences();
   }
@@ -607,6 +612,11 @@ PPL::Grid::relation_with(const Generator& g) const {
   // generators of a zero-dimensional space.
   if (space_dim == 0) {
     return Poly_Gen_Relation::subsumes();
+  }
+
+  if (!generators_are_up_to_date() && !update_generators()) {
+    // Updating found the grid empty.
+    return Poly_Gen_Relation::nothing();
   }
 
   if (!congruences_are_up_to_date()) {
